@@ -53,6 +53,7 @@ class Mgr:
     self.observe = observe
     self.model = model          # stack of args (outer -> inner) -> expected observation
     self.default = default
+    self.stack_key = name       # managers writing to the same underlying setting share one model stack
 
 
 def innermost(default):
@@ -149,6 +150,33 @@ def view_observe():
   return ('tooltip' in html.split('<body>')[-1], 'summary-title' in html.split('<body>')[-1])
 
 
+def _deep_merge(a, b):
+  out = dict(a)
+  for k, v in b.items():
+    if isinstance(v, dict) and isinstance(out.get(k), dict):
+      out[k] = _deep_merge(out[k], v)
+    else:
+      out[k] = v
+  return out
+
+
+def _freeze(x):
+  return tuple(sorted((k, _freeze(v)) for k, v in x.items())) if isinstance(x, dict) else x
+
+
+def view_merged_observe():
+  """The options a render call would receive in this scope (what `with pg.view_options() as o` yields)."""
+  with pg.view_options() as o:
+    return _freeze(o)
+
+
+def view_merged_model(stack):
+  out = {}
+  for d in stack:
+    out = _deep_merge(out, {k: (dict(v) if isinstance(v, tuple) else v) for k, v in d})
+  return _freeze(out)
+
+
 def view_model(stack):
   opts = dict(enable_summary_tooltip=True, enable_key_tooltip=True)
   for d in stack:
@@ -157,6 +185,14 @@ def view_model(stack):
 
 
 def catalogue():
+  out = _catalogue()
+  for m in out:
+    if m.name == 'view_options(merged)':
+      m.stack_key = 'view_options'
+  return out
+
+
+def _catalogue():
   tri = (True, False, None)
   return [
       Mgr('notify_on_change', pg.notify_on_change, (True, False), F.is_change_notification_enabled, innermost(True), True),
@@ -175,6 +211,9 @@ def catalogue():
       Mgr('view_options', lambda a: pg.view_options(**dict(a)),
           ((('enable_summary_tooltip', False),), (('enable_key_tooltip', False),), (('enable_summary_tooltip', True),)),
           view_observe, None, None),
+      Mgr('view_options(merged)', lambda a: pg.view_options(**{k: (dict(v) if isinstance(v, tuple) else v) for k, v in a}),
+          ((('extra_flags', (('a', 1),)),), (('extra_flags', (('b', 2),)), ('collapse_level', 2)), (('extra_flags', (('a', 3),)),)),
+          view_merged_observe, view_merged_model, ()),
       Mgr('coding.context', lambda a: pg.coding.context(**dict(a)), ((('a', 1),), (('a', 2),), (('b', 3),)),
           lambda: tuple(sorted(pg.coding.get_context().items())), merge_model, ()),
       Mgr('coding.permission', pg.coding.permission, (P.ASSIGN, P.CALL | P.ASSIGN, P(0)), pg.coding.get_permission,
@@ -255,7 +294,7 @@ def parse_shape(shape):
 def execute(tree, assign, mgrs, rec, tr, label, check_model=True, observe=None):
   """Runs the program; returns the observation log. assign[i] = (mgr index, arg index, raises)."""
   log = []
-  stacks = {m.name: [] for m in mgrs}
+  stacks = {m.stack_key: [] for m in mgrs}
   ok = True
   observe_all = observe or globals()['observe_all']
 
@@ -265,7 +304,7 @@ def execute(tree, assign, mgrs, rec, tr, label, check_model=True, observe=None):
       if m.model is None:
         out.append((m.name, None))
       else:
-        out.append((m.name, m.model(stacks[m.name])))
+        out.append((m.name, m.model(stacks[m.stack_key])))
     return tuple(out)
 
   def compare(where):
@@ -277,7 +316,7 @@ def execute(tree, assign, mgrs, rec, tr, label, check_model=True, observe=None):
     for (name, g), (_, w) in zip(got, expected()):
       m = next(x for x in mgrs if x.name == name)
       if m.model is not None and g != w:
-        rec.viol(f'nesting-rule/{name}', f'{label} at {where}: scopes {stacks[name]} are active, observed {g!r}, documented rule '
+        rec.viol(f'nesting-rule/{name}', f'{label} at {where}: scopes {stacks[m.stack_key]} are active, observed {g!r}, documented rule '
                  f'gives {w!r}', tr)
         ok = False
 
@@ -290,7 +329,7 @@ def execute(tree, assign, mgrs, rec, tr, label, check_model=True, observe=None):
       before = observe_all(mgrs)
       try:
         with m.enter(arg):
-          stacks[m.name].append(arg)
+          stacks[m.stack_key].append(arg)
           compare(f'enter#{me} {m.name}({arg!r})')
           run(kids)
           compare(f'before-exit#{me} {m.name}({arg!r})')
@@ -301,8 +340,8 @@ def execute(tree, assign, mgrs, rec, tr, label, check_model=True, observe=None):
       except (Boom, Halt):
         pass
       finally:
-        if stacks[m.name] and stacks[m.name][-1] is arg:
-          stacks[m.name].pop()
+        if stacks[m.stack_key] and stacks[m.stack_key][-1] is arg:
+          stacks[m.stack_key].pop()
       after = observe_all(mgrs)
       log.append(after)
       if after != before:
